@@ -168,25 +168,32 @@ def rule_i3(repo, col):
 
 
 def _fold_table(func):
-    """for a circuit walker: {'conj': (init, op), 'disj': (init, op), 'atom': ret} extracted from the `ntype == ...` branches"""
+    """for a circuit walker: {'conj': (init, ops, ret), 'disj': ..., 'atom': ...} extracted from the branches that compare the node type with a
+    literal.  The accumulator is whichever local is folded onto itself (`acc = semiring.op(acc, x)`); names do not matter."""
     table = {}
     for n in walk_no_nested(func.node):
-        if isinstance(n, ast.If) and isinstance(n.test, ast.Compare) and isinstance(n.test.left, ast.Name) and n.test.left.id == "ntype" \
-                and isinstance(n.test.comparators[0], ast.Constant):
+        if isinstance(n, ast.If) and isinstance(n.test, ast.Compare) and len(n.test.ops) == 1 and isinstance(n.test.ops[0], ast.Eq) \
+                and isinstance(n.test.comparators[0], ast.Constant) and n.test.comparators[0].value in ("conj", "disj", "atom"):
             kind = n.test.comparators[0].value
             init = None
             ops = set()
             ret = None
+            # the accumulator is the local that is returned (first component when a tuple is returned)
+            acc = None
             for st in n.body:
-                if isinstance(st, ast.Assign) and isinstance(st.targets[0], ast.Name) and st.targets[0].id == "p" and isinstance(st.value, ast.Call):
-                    if init is None:
-                        init = dotted(st.value.func)
-                for sub in ast.walk(st):
-                    if isinstance(sub, ast.Assign) and isinstance(sub.targets[0], ast.Name) and sub.targets[0].id == "p" and isinstance(sub.value, ast.Call) \
-                            and dotted(sub.value.func) in ("self.semiring.times", "self.semiring.plus") and sub.value.args and norm(sub.value.args[0]) == "p":
-                        ops.add(dotted(sub.value.func))
                 if isinstance(st, ast.Return) and st.value is not None:
                     ret = norm(st.value)
+                    v = st.value.elts[0] if isinstance(st.value, ast.Tuple) and st.value.elts else st.value
+                    if isinstance(v, ast.Name):
+                        acc = v.id
+            for st in n.body:
+                for sub in ast.walk(st):
+                    if isinstance(sub, ast.Assign) and isinstance(sub.targets[0], ast.Name) and sub.targets[0].id == acc and isinstance(sub.value, ast.Call) \
+                            and dotted(sub.value.func) in ("self.semiring.times", "self.semiring.plus") and sub.value.args and norm(sub.value.args[0]) == acc:
+                        ops.add(dotted(sub.value.func))
+                if isinstance(st, ast.Assign) and isinstance(st.targets[0], ast.Name) and st.targets[0].id == acc and isinstance(st.value, ast.Call):
+                    if init is None:
+                        init = dotted(st.value.func)
             table[kind] = (init, ops, ret)
     return table
 
@@ -217,6 +224,8 @@ def rule_i4(repo, col):
             raise AnalysisError("%s: conj/disj branches not found" % qn)
         ci, cops, _ = t["conj"]
         di, dops, _ = t["disj"]
+        if ci is None or di is None or not cops or not dops:
+            raise AnalysisError("%s: the conj/disj folds have a shape this rule does not model (conj init=%s ops=%s, disj init=%s ops=%s)" % (qn, ci, sorted(cops), di, sorted(dops)))
         col.decide("I4", f.module, f.node, ci == "self.semiring.one" and cops == {"self.semiring.times"}, "%s folds conjunctions with times from one()" % qn,
                    "%s must fold a conjunction with semiring.times starting from semiring.one(); found init=%s ops=%s" % (qn, ci, sorted(cops)),
                    construct="def %s: conj fold" % qn, function=qn)
